@@ -73,6 +73,7 @@ def required(tier):
           'C05.predict': n // 4, 'C05.decision_function': n // 4,
           'C05.score': n // 4, 'C05.calibrate_threshold': n // 8,
           'C05.not-consulted-on-formed': n // 2,
+          'C05.formed-integers': n,
           'C05.consulted-on-indices': n // 2,
           'C05.error-surfaces.fit': n // 2, 'C05.error-surfaces.query': n,
           'C05.error-surfaces.out-of-range': n // 4}
@@ -206,6 +207,21 @@ def run_case(spec, j):
   api.set_judge(j)
   qi = rng.randint(0, n, size=25).astype(dt)           # repeats, any order
   cmp('C05.transform', 'transform', qi)
+  # formed points whose coordinates are whole numbers stored in an integer
+  # dtype are still formed points - also when there is a single feature and
+  # the (n, 1) array looks like a column of indicators
+  fw = np.minimum(np.abs(np.round(X[qi.astype(np.int64)])), 100).astype(dt)
+  with Quiet():
+    c1 = mp.n_calls if mp is not None else 0
+    rwa = A.transform(fw)
+    c2 = mp.n_calls if mp is not None else 0
+    rwb = B.transform(fw)
+  j.check('C05.formed-integers', np.array_equal(rwa, rwb, equal_nan=True),
+          dict(det, method='transform', shape=fw.shape, dtype=str(fw.dtype)))
+  if mp is not None:
+    j.check('C05.not-consulted-on-formed', c2 == c1,
+            dict(det, method='transform', formed='integer-valued points',
+                 calls=c2 - c1))
   # structured index columns: runs, runs with a repeat and a skip (same span
   # as a run), constants, sorted with repeats
   a0 = int(rng.randint(0, max(1, n - 8)))
